@@ -32,7 +32,7 @@ def with_clock(fen, hmc):
     t = fen.split(); t[4] = str(hmc); return " ".join(t)
 
 
-def prior_session(rng, fens, n_go, probe_fens=(), block_first=False):
+def prior_session(rng, fens, n_go, probe_fens=(), block_last=False):
     """list of UCI commands forming a prior session with exactly n_go searches, every changed option reverted at the end"""
     cmds, revert = [], {}
     defaults = {"MultiPV": 1, "UseNullMove": "true", "Contempt": 0, "UCI_AnalyseMode": "false", "Hash": 8, "Strength": 1000, "Threads": 1, "AnalysisAgeHash": "true"}
@@ -40,17 +40,8 @@ def prior_session(rng, fens, n_go, probe_fens=(), block_first=False):
     done = 0
     while done < n_go:
         x = rng.random()
-        if (x < 0.07 or (block_first and not cmds)) and probe_fens:
-            # option block: a combination of options, optionally a clear, some searches on the probe's own boards under that
-            # combination (analysis searches that do not age the table, contempt that enters cached values, ...), then everything reverted
-            ks = ["AnalysisAgeHash", "UCI_AnalyseMode"] if (block_first and not cmds) or rng.random() < 0.4 else rng.sample(list(changed), rng.randrange(1, 4))
-            for k in ks: cmds.append(("cmd", f"setoption name {k} value {rng.choice(changed[k])}"))
-            if rng.random() < 0.7: cmds.append(("cmd", rng.choice(["setoption name Clear Hash", "ucinewgame"])))
-            for _ in range(rng.randrange(1, 4)):
-                f = rng.choice(probe_fens)
-                cmds.append(("go", f, rng.choice(["go depth 6", "go depth 7", "go nodes 60000", "go infinite"]))); done += 1
-            for k in ks: cmds.append(("cmd", f"setoption name {k} value {defaults[k]}"))
-            continue
+        if x < 0.07 and probe_fens:
+            done += option_block(rng, cmds, probe_fens, changed, defaults, False); continue
         if x < 0.08:
             cmds.append(("cmd", "ucinewgame"))
         elif x < 0.2:
@@ -76,7 +67,23 @@ def prior_session(rng, fens, n_go, probe_fens=(), block_first=False):
             cmds.append(("go", fen, go)); done += 1
     for k, v in revert.items():
         cmds.append(("cmd", f"setoption name {k} value {v}"))
+    if block_last and probe_fens:
+        # the last thing before the final Clear Hash: an analysis block after a clear (nothing but non-ageing searches since that clear)
+        option_block(rng, cmds, probe_fens, changed, defaults, True)
     return cmds
+
+
+def option_block(rng, cmds, probe_fens, changed, defaults, analysis):
+    """a combination of options, optionally a clear, some node-limited / infinite searches on the probe's own boards under that combination
+    (analysis searches that do not age the table, contempt that enters cached values, ...), then everything reverted; returns the number of searches"""
+    ks = ["AnalysisAgeHash", "UCI_AnalyseMode"] if analysis or rng.random() < 0.4 else rng.sample(list(changed), rng.randrange(1, 4))
+    for k in ks: cmds.append(("cmd", f"setoption name {k} value {rng.choice(changed[k])}"))
+    if analysis or rng.random() < 0.7: cmds.append(("cmd", rng.choice(["setoption name Clear Hash", "ucinewgame"])))
+    n = rng.randrange(1, 4)
+    for _ in range(n):
+        cmds.append(("go", rng.choice(probe_fens), rng.choice(["go nodes 20000", "go nodes 60000", "go infinite"])))
+    for k in ks: cmds.append(("cmd", f"setoption name {k} value {defaults[k]}"))
+    return n
 
 
 def run_session(args):
@@ -133,7 +140,7 @@ def run(ctx):
     # one heavy probe: enough nodes for the replacement scheme (hence the used table size / index mapping) to matter at Hash 8
     probes.append((r.choice(chessgen.SEED_FENS[1:11]), f"go nodes {400000 if quick else 1500000}"))
     nfresh = 2 * len(probes)          # every probe twice, each in its own freshly started process
-    jobs = [([], [p]) for p in probes for _ in range(2)] + [(prior_session(r, fens, n, [p[0] for p in probes], block_first=(i % 3 == 1)), probes) for i, n in enumerate(lengths)]
+    jobs = [([], [p]) for p in probes for _ in range(2)] + [(prior_session(r, fens, n, [p[0] for p in probes], block_last=(i % 3 == 1)), probes) for i, n in enumerate(lengths)]
     with cf.ThreadPoolExecutor(max(2, vlib.NCPU // 2)) as ex:
         res = list(ex.map(run_session, jobs))
     err = next((x["error"] for x in res[:nfresh] if x["error"]), None)
